@@ -59,6 +59,9 @@ def grid(tier, seed):
              dict(n=12, pool=1, max_tasks=25, net_always=[101, 104], net_wrapped=[106], net_flaky={"102": 2, "108": 3}, raising=[110], api="run"),
              dict(n=6, pool=2, max_tasks=2, net_always=[103], tolerate_fails=False),
              dict(n=6, pool=1, max_tasks=2, net_always=[103], tolerate_fails=False)]
+    # the parent is held up between a timed-out poll and the reaping of its children while the last workers queue their result and exit
+    base += [dict(n=2, pool=2, max_tasks=25, task_ms=1300, inject={"seed": 3, "max_ms": 0, "prob": 0.0, "fixed": {"parent_before_reap": 600}}),
+             dict(n=3, pool=3, max_tasks=1, task_ms=1250, api="run", inject={"seed": 4, "max_ms": 0, "prob": 0.0, "fixed": {"parent_before_reap": 500}})]
     # the same id submitted several times: every submission has its own outcome
     base += [dict(n=8, pool=2, max_tasks=2, dup_ids=True), dict(n=4, pool=4, max_tasks=25, dup_ids=True, task_ms=2, task_jitter=True),
              dict(n=10, pool=3, max_tasks=25, dup_ids=True, consumer_ms=5)]
